@@ -13,7 +13,7 @@ ContA == [defs |-> <<0, 0, 0>>, reps |-> <<0, 0, 0>>, vals |-> << <<1,0,0,0>>, <
 ContB == [defs |-> <<2, 2, 0, 1>>, reps |-> <<0, 1, 0, 0>>, vals |-> << <<120>>, <<>> >>]
 ContC == [defs |-> <<1, 0, 1>>, reps |-> <<0, 0, 0>>, vals |-> << <<1>>, <<0>> >>]
 Opts == [style : {"rle", "bp1", "mix", "zero", "pad1"}, idxStyle : {"bp"}, useDict : BOOLEAN,
-         dictOffsetField : BOOLEAN, dictEnc : {0}, dataEnc : {8}, crc : {"good"}, codec : {0, 1, 5},
+         dictOffsetField : BOOLEAN, dictEnc : {0}, dataEnc : {8}, crc : {"good"}, codec : {0, 1, 5, 2, 6},
          stats : {NoStatsW}, extraWidth : {0, 3}, v2 : {FALSE}, encTag : {255}, codecTag : {255}, hmutPage : {0}, hmut : {[kind |-> "none"]}, mixEnc : {"all", "fallback", "reverse"}, minW0 : BOOLEAN]
 Desc(o, twoPages, extras, sty) ==
     [elements |-> Elems, createdBy |-> <<114, 101, 102>>, sty |-> sty, extras |-> extras,
